@@ -177,38 +177,44 @@ def predicate(c, be):
     return fails
 
 
-# error-class pairs (KV, SQL) that the model proves are the ONLY differences on
-# disciplined histories (C16_refinement_partial): same accept/reject decision and
-# same stored state, different sentinel.
-ERRCLASS_PAIRS = {(5, 1), (9, 1), (8, 1), (1, 5)}
+# (op, KV error, SQL error) triples that the model proves are the ONLY differences
+# on disciplined histories (C16_refinement_partial / err_class_pair): same
+# accept/reject decision and same stored state, different sentinel.
+ERRCLASS = {("reg", 5, 1), ("delpay", 1, 5), ("delfailed", 1, 5),
+            ("settle", 9, 1), ("settle", 8, 1), ("failatt", 9, 1), ("failatt", 8, 1)}
 
 
 def kvsql_compare(c):
-    """Direct KV vs SQL comparison of one history.  Returns None or
-    (kind, step index, description)."""
+    """Direct KV vs SQL comparison of one history on the implementation's answers.
+    Returns (first state/answer divergence or None, set of error-class pairs seen).
+    A divergence is (kind, step index, description); kind is one of the two
+    specific, independently re-checked classes or 'other'."""
+    errclass = set()
+    owner = {}      # attempt id -> set of hashes it was successfully registered under
     for i, s in enumerate(c["steps"]):
         a, b = s["kv"], s["sql"]
-        if a["p"] == b["p"] and a["l"] == b["l"]:
-            if a["e"] == b["e"]:
-                continue
-            if a["p"] is None and a["e"] != 0 and b["e"] != 0:
-                if (a["e"], b["e"]) in ERRCLASS_PAIRS:
-                    # keep looking for a state divergence but remember the class
-                    c.setdefault("_errclass", set()).add(
-                        "%s:%s/%s" % (s["op"][0], ERR[a["e"]], ERR[b["e"]]))
-                    continue
-                return ("errclass-unexpected", i, "%s: KV %s vs SQL %s"
-                        % (s["op"][0], ERR[a["e"]], ERR[b["e"]]))
         k = s["op"][0]
-        if k == "reg" and a["e"] == 0 and b["e"] == 1 and "attempt_index" in b.get("m", ""):
-            return ("dup-attempt-id", i, "RegisterAttempt with an attempt id already used: "
-                    "KVStore accepts (overwrites/shares), SQLStore rejects")
-        if k in ("settle", "failatt") and a["e"] != 0 and b["e"] == 0:
+        same_payload = a["p"] == b["p"] and a["l"] == b["l"]
+        if same_payload and a["e"] == b["e"]:
+            if k == "reg" and a["e"] == 0:
+                owner.setdefault(s["op"][2], set()).add(s["op"][1])
+            continue
+        if same_payload and a["p"] is None and (k, a["e"], b["e"]) in ERRCLASS:
+            errclass.add("%s:%s/%s" % (k, ERR[a["e"]], ERR[b["e"]]))
+            continue
+        if k == "reg" and a["e"] == 0 and b["e"] == 1 and b["p"] is None \
+                and "payment_htlc_attempts.attempt_index" in b.get("m", "") \
+                and s["op"][2] in owner:
+            return ("dup-attempt-id", i, "RegisterAttempt with an attempt id that is already "
+                    "in use: KVStore accepts (overwrites / shares it), SQLStore rejects"), errclass
+        if k in ("settle", "failatt") and a["e"] == 1 and a["p"] is None and b["e"] == 0 \
+                and s["op"][2] in owner and s["op"][1] not in owner[s["op"][2]]:
             return ("cross-payment-resolve", i, "Settle/FailAttempt through another payment's "
-                    "hash: KVStore rejects, SQLStore resolves the other payment's attempt")
-        return ("other", i, "%s: KV %s/%s vs SQL %s/%s" % (
-            k, ERR[a["e"]], a["p"], ERR[b["e"]], b["p"]))
-    return None
+                    "hash: KVStore rejects, SQLStore resolves the other payment's attempt"), \
+                errclass
+        return ("other", i, "%s: KV %s %s vs SQL %s %s" % (
+            k, ERR[a["e"]], a["p"], ERR[b["e"]], b["p"])), errclass
+    return None, errclass
 
 
 def run(ctx):
@@ -252,37 +258,39 @@ def run(ctx):
     div = {}
     errclasses = set()
     for c in rows:
-        d = kvsql_compare(c)
-        errclasses |= c.pop("_errclass", set())
+        d, ec = kvsql_compare(c)
+        if c["mode"] != "wrap":
+            errclasses |= ec
         if d is None:
             continue
         kind, i, desc = d
-        disciplined = c["mode"] in ("disc", "wrap")
-        if kind in ("dup-attempt-id", "cross-payment-resolve") and not disciplined:
+        if c["mode"] == "wrap" and kind == "other":
+            continue        # outside the amount domain the stores may answer differently
+        detail = {"case": c["case"], "mode": c["mode"], "at_step": i, "what": desc,
+                  "minimal_history": [s["op"] for s in c["steps"][:i + 1]],
+                  "kv_answers": [s["kv"] for s in c["steps"][:i + 1]][-3:],
+                  "sql_answers": [s["sql"] for s in c["steps"][:i + 1]][-3:]}
+        if kind in ("dup-attempt-id", "cross-payment-resolve") \
+                and c["mode"] in ("wild", "witness"):
+            # the two genuine differences witnessed by C16_backends_differ_refuted; the
+            # directed witness cases come first, so the recorded history is minimal
             if kind not in div:
-                div[kind] = (c, i, desc)
+                div[kind] = detail
             continue
-        # anything else — or a divergence on a disciplined history — is new
+        # anything else — or any divergence on a disciplined history — is new
         if nviol < 6:
             nviol += 1
-            ctx.violation("impl_violates_predicate", "C16_refinement_partial",
-                          {"case": c["case"], "mode": c["mode"], "at_step": i, "what": desc,
-                           "history": [s["op"] for s in c["steps"][:i + 1]],
-                           "kv": [s["kv"] for s in c["steps"][:i + 1]][-3:],
-                           "sql": [s["sql"] for s in c["steps"][:i + 1]][-3:]},
-                          signature="C16 kvsql:%s %s" % (kind, desc))
-    for kind, (c, i, desc) in sorted(div.items()):
-        # genuine KV/SQL differences (witnessed in Coq by C16_backends_differ_refuted)
-        ctx.violation("impl_violates_predicate", "C16_backends_differ_refuted",
-                      {"case": c["case"], "mode": c["mode"], "at_step": i, "what": desc,
-                       "history": [s["op"] for s in c["steps"][:i + 1]],
-                       "kv": [s["kv"] for s in c["steps"][:i + 1]][-2:],
-                       "sql": [s["sql"] for s in c["steps"][:i + 1]][-2:]},
+            ctx.violation("impl_violates_predicate", "C16_refinement_partial", detail,
+                          signature="C16 kvsql-unexpected:%s %s" % (kind, desc))
+    for kind, detail in sorted(div.items()):
+        ctx.violation("impl_violates_predicate", "C16_backends_differ_refuted", detail,
                       signature="C16 kvsql:%s" % kind)
     if errclasses:
         ctx.violation("impl_violates_predicate", "C16_backends_differ_refuted",
                       {"what": "same decision and state, different error sentinel",
-                       "pairs(op:KV/SQL)": sorted(errclasses)},
+                       "pairs(op:KV/SQL)": sorted(errclasses),
+                       "minimal_history": [["reg", 0, 1, 5, True, 1, 1000, False, 0],
+                                           ["delpay", 0, False]]},
                       signature="C16 kvsql:errclass")
 
     # ---- correspondence: model (KV step, SQL step) vs both implementations
